@@ -49,6 +49,7 @@ class Tracer:
     def emit(self, ev, **kw):
         kw['ev'] = ev
         kw['pid'] = os.getpid()
+        kw['t'] = time.monotonic_ns()    # CLOCK_MONOTONIC: comparable between the processes of one run
         if self.fd is not None:
             os.write(self.fd, (json.dumps(kw) + '\n').encode('utf-8', 'backslashreplace'))
         else:
@@ -383,6 +384,8 @@ def install_child_faults(spec):
     if getattr(sys.stderr, '_ztv_cut', False):
         return
     emit('child', layer=child_layer(), argv=sys.argv[1:4])
+    import atexit
+    atexit.register(lambda: emit('child_exit', layer=child_layer()))
     if cfg is not None:
         # every child's report is observed; only the named layer's report is cut
         if not child_layer().endswith(cfg.get('layer', '')):
